@@ -103,6 +103,12 @@ C19_New == {SD("dict", NoVal, <<<<C19_KA, c>>>>) :
                      \cup {C19_MdAll(SD("dict", NoVal, <<<<C19_KB, C19_L("2")>>>>)), SD("dict", NoVal, <<>>),
                            WithTag(SD("dict", NoVal, <<>>), "del"),
                            WithTag(SD("dict", NoVal, <<<<C19_KA, C19_L("2")>>, <<C19_KB, WithTag(SD("dict", NoVal, <<<<C19_KB, C19_L("2")>>>>), "notnew")>>>>), "del")}}
+\* quick tier: a narrower older set
+C19_OldSubQ == {C19_L("1"), WithTag(C19_L("1"), "force"), SD("dict", NoVal, <<<<C19_KA, WithTag(C19_L("1"), "force")>>>>),
+                WithTag(SD("dict", NoVal, <<<<C19_KA, C19_L("1")>>>>), "force"), C19_Call(<<<<C19_KA, C19_L("1")>>>>)}
+C19_OldQ == {SD("dict", NoVal, <<<<C19_KA, c>>>>) : c \in MapsOver(<<C19_KA, C19_KB>>, C19_OldSubQ) \ {SD("dict", NoVal, <<>>)}}
+C19_HistQ == SetToSeq(C19_OldQ) \o SetToSeq(C19_New)
+C19_HistRangeQ == << <<1, Cardinality(C19_OldQ)>>, <<Cardinality(C19_OldQ) + 1, Cardinality(C19_OldQ) + Cardinality(C19_New)>> >>
 C19_Hist  == SetToSeq(C19_Old) \o SetToSeq(C19_New)
 C19_HistRange == << <<1, Cardinality(C19_Old)>>, <<Cardinality(C19_Old) + 1, Cardinality(C19_Old) + Cardinality(C19_New)>> >>
 
